@@ -16,7 +16,8 @@ EXPLANATION = (
     "check_pending_results cancels the task of every pending slot that has a canceller, marks every other pending slot as pending, releases "
     "held events, deletes the join state only when nothing is pending, agrees with the join on what 'pending' means, and cancel_task finds "
     "the pending request under the key it was registered with, removes it before the callback, clears a Wait's timer and reports "
-    "Task.Terminated. Not decided: everything that depends on the arrival order of sibling events, replies and timers.")
+    "Task.Terminated. Not decided: everything that depends on the arrival order of sibling events, replies and timers."
+    ' (R10) the keys the event gate subscripts exist in every Branch record the join writes (or the read is guarded), and the reply gate looks the group up tolerantly: stragglers of a tidied-up group are dropped like any terminated branch instead of raising KeyError.')
 RULE_TEXT = "obligation = one reply path x fact, one dominated site, one bookkeeping fact; non-trivial = distinct (rule, site)"
 
 
